@@ -1365,7 +1365,8 @@ def main(tier, replay=None):
                 "(thorough) operations over read/write/delete alias, class-level read, read/write/delete target, deepcopy, "
                 "with_/update_/transform_/reset_<alias> and <target> (transform pool: identity, write-into-argument, wrap, +1, const); "
                 "helper block: aimed cases around one or two helper calls with mutable current values; distinct = distinct (host, configuration, initial tree, operations); every case "
-                "has >= 1 operation and is judged after every operation",
+                "has >= 1 operation and is judged after every operation; round G: every second spec host is a spec subclass inheriting the alias; "
+                "toplevel_probe: constructor keywords and top-level reset/update/transform compared with the elementary operations they stand for",
         "samples": [to_json(cases[j]) for j in (len(corpus), len(corpus) + len(exh) + 1,
                                                   len(corpus) + len(exh) + len(helpers) + 1, len(cases) - 1)],
         "exhaustive": False, "exhaustive_subscope": {"scope": f"all {len(EXH_OPS)}^{exh_len} sequences of length {exh_len} over read/write/delete alias, "
